@@ -103,14 +103,16 @@ def ifm_extent(f):
 
 
 def lut_bytes(f, accel):
+    """SHRAM bytes of the lookup table an operation uses: the table is indexed by the operation's result, so its geometry follows the OFM precision:
+    8-bit OFM -> 256 one-byte entries, 32-bit OFM -> 256 four-byte entries (softmax exp), 16-bit OFM -> 512 four-byte (base, slope) entries;
+    the table index counts 256-byte slots from the start of the LUT area"""
     a = f["activation"]
     if a["lut_index"] is None:
         return None
     base = hw.lut_start_bank(accel, True) * hw.SHRAM_BANK_BYTES
-    if f["ifm"]["bits"] == 8:
-        size = 256 if f["ofm"]["bits"] != 32 else 1024  # 256 entries of one byte, or of one 32-bit word
-        return (base + a["lut_index"] * size, base + a["lut_index"] * size + size)
-    return (base, base + 2048)
+    size = {8: 256, 32: 1024, 16: 2048}[f["ofm"]["bits"]]
+    start = base + a["lut_index"] * 256
+    return (start, start + size)
 
 
 def op_footprints(f, accel):
